@@ -347,7 +347,23 @@ def run(ctx):
             for k in range(1, 21):
                 m = sgw[:-1] + 'q' * k + 'p'
                 cases.append(('segwit_dec ' + m, py_segwit(m), True))
-    ctx.compare(cases, 'lengths', refusal_ok=True)
+    def f47(extra, op, py, spec):
+        # listed finding F47: the Bech32 encoder takes a program whose length is not 20/32/40 and whose second byte happens to equal
+        # its length - 2 for a script (version byte, push byte, program) and encodes something else
+        if op.startswith('address ') and 'reencodes-as' in py and spec.startswith('bech32 ') and any(f['id'] == 'F47' for f in ctx.known):
+            prog = bytes.fromhex(spec.split(' ')[3]) if len(spec.split(' ')) > 3 and spec.split(' ')[3] != '-' else b''
+            if len(prog) not in (20, 32, 40) and len(prog) >= 2 and prog[1] == len(prog) - 2:
+                return 'F47'
+        return None
+
+    # force the coincidence once per run so that the listed finding is exercised deterministically
+    for ln in (24, 33):
+        prog = bytes([0x38, ln - 2]) + bytes(rng.randrange(256) for _ in range(ln - 2))
+        sgw = segwit_enc_ref('tb', 1, prog)
+        r = py_address_case(sgw)
+        if r is not None:
+            cases.append(('address ' + sgw, r, True))
+    ctx.compare(cases, 'lengths', trigger_findings=f47, refusal_ok=True)
     sweep_b58check(wifs[:nq[2]], 'wif', True, 0)
     sweep_b58check(xkeys[:nq[3]], 'xkey', T, 1500)
     # every valid string of every class once, plus sampled mutants, so that all networks/prefixes are touched
